@@ -53,20 +53,20 @@ class Peer:
         self.sock, self.evs, self.outstanding, self.open, self.delivered = sock, list(evs), 0, True, []
 
     def step(self, port_sock):
+        """the answer to one _is_readable() call.  While the kernel still holds unread data the answer is yes; otherwise the next
+        event happens: a whole segment goes out, nothing arrives for now, the peer closes, or the peer dies."""
+        r, _, _ = select.select([port_sock], [], [], 0)
+        if r:
+            return True
         if not self.evs:
             return False
         e = self.evs.pop(0)
         if e >= 0:
-            if self.outstanding == 0:
-                run = [e]
-                for x in self.evs:
-                    if x < 0:
-                        break
-                    run.append(x)
-                self.sock.sendall(bytes(run))          # the whole segment goes out at once
-                self.outstanding = len(run)
-            self.outstanding -= 1
-            self.delivered.append(e)
+            run = [e]
+            while self.evs and self.evs[0] >= 0:
+                run.append(self.evs.pop(0))
+            self.sock.sendall(bytes(run))
+            self.delivered += run
             wait_readable(port_sock, 'a segment')
             return True
         if e == -1:
